@@ -123,11 +123,18 @@ def parse_coverage(out):
 
 
 def parse_prints(out):
-    """PrintT(<<"TAG", ...>>) lines -> list of (tag, [fields])."""
+    """PrintT(ToJson(<<"TAG", ...>>)) lines (a JSON string holding a JSON array) -> list of (tag, [fields]);
+    plain PrintT(<<"TAG", ...>>) tuples of scalars are accepted too."""
     res = []
     for line in out.splitlines():
         line = line.strip()
-        if line.startswith('<<"') and line.endswith(">>"):
+        if line.startswith('"[') and line.endswith(']"'):
+            try:
+                v = json.loads(json.loads(line))
+                res.append((v[0], v[1:]))
+            except Exception:
+                pass
+        elif line.startswith('<<"') and line.endswith(">>"):
             body = line[2:-2]
             parts = [x.strip() for x in split_top(body)]
             tag = parts[0].strip('"')
